@@ -16,5 +16,7 @@ func init() {
 			"api.QueryStats{},\n", "", "C19-K1", "api.QueryStats"},
 		Mutant{"C19", "c19-remote-stub", "lake/api/remote.go", "remote.RemoveBranch",
 			"return r.conn.RemoveBranch(ctx, poolID, branchName)", "return errors.New(\"TBD remote.RemoveBranch\")", "C19-K2", "(*lake/api.remote).RemoveBranch"},
+		Mutant{"C19", "c19-load-writer-owns-pipe", "lake/api/remote.go", "remote.Load",
+			"w := zngio.NewWriter(zio.NopCloser(pw))", "w := zngio.NewWriter(pw)", "C19-E3", "pipe ownership"},
 	)
 }
